@@ -67,8 +67,10 @@ impl SwiftField for Field23 {
                     });
                 }
 
-                // NOTICE function code requires days field
-                if function_code != "NOT" && function_code != "NOTICE" {
+                // Only the NOTICE function takes a number of days. In MT935 the first
+                // subfield is the currency (3!a[2!n]11x = currency, days, function), so the
+                // function is what follows the days
+                if function_code != "NOT" && function_code != "NOTICE" && &input[5..] != "NOTICE" {
                     return Err(ParseError::InvalidFormat {
                         message: format!(
                             "Days field only allowed for NOTICE function code, found {}",
